@@ -569,6 +569,8 @@ class _DevIsWaitingForMsg(BindStateBase):
 
     def rcvd_msg(self, msg: Message) -> None:
         """If the msg is the waited-for pkt, transition to the next state."""
+        if self._fut.done():  # e.g. a duplicate pkt (devices Tx each pkt x3)
+            return
         if self.is_phase(msg._pkt, self._expected_pkt_phase):
             self._fut.set_result(msg)
 
@@ -616,6 +618,8 @@ class _DevIsReadyToSendCmd(BindStateBase):
 
     def rcvd_msg(self, msg: Message) -> None:
         """If the msg is the echo of the sent cmd, transition to the next state."""
+        if self._fut.done():  # e.g. a duplicate echo (from a re-transmit)
+            return
         if self._cmd and msg._pkt == self._cmd:
             self._fut.set_result(msg)
 
@@ -631,6 +635,8 @@ class _DevSendCmdUntilReply(_DevIsWaitingForMsg, _DevIsReadyToSendCmd):
         """If the msg is the expected reply, transition to the next state."""
         # if self._cmd and msg._pkt == self._cmd:  # the echo
         #     self._set_context_state(self._next_ctx_state)
+        if self._fut.done():  # e.g. a duplicate pkt (devices Tx each pkt x3)
+            return
         if self.is_phase(msg._pkt, self._expected_pkt_phase):
             self._fut.set_result(msg)
 
